@@ -172,7 +172,7 @@ def r1(cx, g):
     for rule, kws in (("method", ["method", "->"]), ("vtypedef", ["type", "type"]), ("error", ["error"]), ("ParseInterface", ["interface"]),
                       ("array", ["[]"]), ("dict", ["[string]"]), ("option", ["?"])):
         got = lits_of(g.rules[rule])
-        cx.check(got == kws, "C11.R1", "grammar:%s:keywords" % rule, site(rule), "rule %s uses literals %s, expected %s" % (rule, got, kws), note_ok="literals %s" % kws)
+        cx.check(sorted(set(got)) == sorted(set(kws)), "C11.R1", "grammar:%s:keywords" % rule, site(rule), "rule %s uses literals %s, expected %s" % (rule, got, kws), note_ok="literals %s" % kws)
     # member = method / vtypedef / error ; interface = header eol member ++ eol
     mem = g.rules["member"]
     mc = [a[1] for a in (mem[1] if mem[0] == "alt" else [mem]) if a[0] == "call"]
